@@ -43,14 +43,20 @@ Theorem concat_docs : forall o w0 dws, all_ws w0 -> Forall doc_ok dws -> seps_ok
 Proof. exact concat_docs_lemma. Qed.
 Print Assumptions concat_docs.
 
-(* (b) on the fragment frag15 -- 1-d numeric NumpyArray, ListOffset/List/Regular, Indexed, IndexedOption,
-   ByteMasked, BitMasked, Unmasked, Record incl. tuples and __record__ names, Union, Empty, strings and
-   bytestrings (list node over a 1-d uint8 char/byte NumpyArray, the shape validityerror accepts) -- and for
-   uint64 data below 2^63: the events of to_json fold back into to_list up to the documented rendering jv
-   (VStr -> string, VTup -> object keyed "0","1",..., nan/inf -> the chosen strings).
-   Missing from the full statement (every c with [Valid None c]): n-d NumpyArray (shape of rank > 1) and
-   __array__ values other than string/bytestring on valid nodes (categorical). The hypothesis u64ok cannot
-   be dropped: Example tojson_value_refuted_uint64 (known finding c15-uint64-wraps). *)
+(* (b) FULL statement: for every valid layout the events of to_json fold back into to_list, up to the
+   documented rendering jv (VStr -> string, VTup -> object keyed "0","1",..., nan/inf -> the chosen
+   strings, everything else unchanged).  The two data hypotheses: [bytes_ok] (uint8 items are bytes) always
+   holds in the implementation and is there only because the model's buffers are unbounded integers;
+   [u64ok] (uint64 items below 2^63) cannot be dropped: Example tojson_value_refuted_uint64 in
+   Proofs_C15.v is the known finding c15-uint64-wraps. *)
+Theorem tojson_value : forall o c vs, Valid None c -> bytes_ok c = true -> u64ok c = true -> to_list c = Ok vs ->
+  exists evs, tojson_events o c = Ok evs /\ json_value evs = Ok (VList (map (jv o) vs), []).
+Proof. exact tojson_value_full. Qed.
+Print Assumptions tojson_value.
+
+(* the same on the syntactic fragment frag15 (every node class; __array__ absent or string/bytestring over a
+   1-d uint8 char/byte NumpyArray), without assuming validity of offsets, indexes, masks or tags:
+   [to_list c = Ok vs] is enough *)
 Theorem tojson_value_partial : forall o c vs, frag15 c = true -> u64ok c = true -> to_list c = Ok vs ->
   exists evs, tojson_events o c = Ok evs /\ json_value evs = Ok (VList (map (jv o) vs), []).
 Proof. exact tojson_value_frag. Qed.
